@@ -324,6 +324,9 @@ class VC:
             if is_int(a) and is_int(b): return a + b
             if isinstance(a, VBytes) and isinstance(b, VBytes):
                 return self.bytes_concat(a, b, P)
+            if isinstance(a, VList) and isinstance(b, VList) and a.kind == b.kind:      # list + list: a new list object
+                j = z3.Int('j!cat')
+                return self.alloc(P, VList(z3.Lambda([j], z3.If(j < zint(a.n), a.arr[j], b.arr[j - zint(a.n)])), a.n + b.n, a.kind))
         if isinstance(op, ast.Sub) and is_int(a) and is_int(b): return a - b
         if isinstance(op, ast.Mult):
             if is_int(a) and is_int(b): return a * b
@@ -351,8 +354,8 @@ class VC:
 
     def list_repeat(self, a, n, P):
         if not (isinstance(a.n, int) and a.n == 1): raise OutsideSubset('[..]*n with len != 1')
-        self.oblige('repeat-count-nonneg', P, n >= 0) if not isinstance(n, int) else None
         e = a.arr[0]
+        n = max(n, 0) if isinstance(n, int) else If(n >= 0, n, 0)        # Python: [e] * n == [] for n <= 0
         return VList(z3.K(I, zint(z3.simplify(e) if is_z3(e) else e)), n, a.kind)
 
     def bytes_concat(self, a, b, P):
@@ -541,7 +544,7 @@ class VC:
             hi = n if hi is None else hi
             self.oblige(f'slice-bounds@{line}', P, And(0 <= lo, lo <= hi, hi <= n), line=line)
             j = z3.Int('j!sl')
-            return VList(z3.Lambda([j], v.arr[j + lo]), hi - lo, v.kind)
+            return self.alloc(P, VList(z3.Lambda([j], v.arr[j + lo]), hi - lo, v.kind))      # a slice is a new list object
         raise OutsideSubset('slice of ' + repr(v))
 
     def ev_ListComp(self, e, P):
